@@ -198,7 +198,9 @@ pub fn gen_case(t: &mut Tape, leading_unsafe_ok: bool) -> Case {
             }
             let attrs = attrs.join(" ");
             let vis = gen::gen_vis(t);
-            let item = format!("{attrs} {vis} mod the_mod {{ {} }}", items.join("\n"));
+            // inner attributes / inner doc comments at the top of the module belong to the original as well
+            let inner = if t.chance(1, 6) { *t.pick(&["//! inner doc\n", "#![allow(unused)] ", "/*! block */ #![doc = \"more\"] #![allow(dead_code)] "]) } else { "" };
+            let item = format!("{attrs} {vis} mod the_mod {{ {inner}{} }}", items.join("\n"));
             let attr = gen::gen_fn_attr(t, "Foo", no_deps);
             Case { mode: "mod", macro_name, attr, item, nontrivial: other || !attrs.is_empty() }
         }
@@ -246,7 +248,8 @@ pub fn gen_case(t: &mut Tape, leading_unsafe_ok: bool) -> Case {
             let uns = if t.chance(1, 6) { "unsafe " } else { "" };
             let trait_path = *t.pick(&["TraitImpl", "a::TraitImpl", "TraitImpl<i32>", "::a::b::TraitImpl"]);
             let self_ty = *t.pick(&["MyType", "a::MyType", "MyType<i32>", "(A, B)", "[u8; 3]", "&'static MyType"]);
-            let item = format!("{} {uns}impl {trait_path} for {self_ty} {{ {} }}", attrs.join(" "), items.join("\n"));
+            let inner = if t.chance(1, 8) { *t.pick(&["#![allow(unused)] ", "#![allow(dead_code)] #![doc = \"inner\"] "]) } else { "" };
+            let item = format!("{} {uns}impl {trait_path} for {self_ty} {{ {inner}{} }}", attrs.join(" "), items.join("\n"));
             let attr = (*t.pick(&["", "ref", "dyn", "ref dyn"])).to_string();
             Case { mode: "impl", macro_name, attr, item, nontrivial: other || !attrs.is_empty() || !uns.is_empty() }
         }
